@@ -30,12 +30,16 @@ var c18Items = []c18Item{
 	{text: `"é"`},
 	{text: "\"x\ny\""},
 	{text: "r\"x\ny\""},
+	{text: "r\"\nx\""},  // line break as the first character of the body (C18-g)
+	{text: "r'x\n'"},    // ... and as the last one
+	{text: "r\"\n\n\""}, // ... and nothing else
 	{text: "# c\n", off: 1, cmt: true},
 	{text: "# c", off: 1, cmt: true, last: true},
 	{text: "# c\r\n", off: 1, cmt: true},
 	{text: "# c\rd\n", off: 1, cmt: true},
 	{text: "/* c */", off: 2, cmt: true},
 	{text: "/* c\nd */", off: 2, cmt: true},
+	{text: "/*\nc\n*/", off: 2, cmt: true},
 }
 
 var c18Seps = []string{" ", "\n", "\r\n", "\t", ""}
@@ -173,7 +177,7 @@ func c18Enumerate(c *Ctx, maxItems int, seps []string) {
 }
 
 // planted errors and statement separation
-var c18Fillers = []string{"a := 1", "t := [true, null, false]", "b := \"s\"", "/* c */", "/* c\nd */", "# c\n", "x := r\"x\ny\"", "y := [1,\n2]", "z := \"é\""}
+var c18Fillers = []string{"a := 1", "t := [true, null, false]", "b := \"s\"", "/* c */", "/* c\nd */", "# c\n", "x := r\"x\ny\"", "w := r\"\nx\"", "y := [1,\n2]", "z := \"é\""}
 
 func c18Planted(c *Ctx, maxFill int) {
 	var rec func(src string, n int, swallowed []int)
